@@ -136,7 +136,7 @@ plan(Plan(
 ))
 
 
-C14_FNS = [UTIL + "_flatten_recurse", UTIL + "flatten", CORE + "is_tag_node", CORE + "is_tag_child", CORE + "_tagchilds_to_tagnodes"] + \
+C14_FNS = [UTIL + "_flatten_recurse", UTIL + "flatten", CORE + "is_tag_node", CORE + "is_tag_child", CORE + "_tagchilds_to_tagnodes", CORE + "Tag.__init__"] + \
           [CORE + "TagList." + m for m in ("__init__", "extend", "append", "insert", "__add__", "__radd__", "__iadd__")] + \
           [CORE + "Tag." + m for m in ("extend", "append", "insert")]
 plan(Plan(
@@ -226,10 +226,10 @@ plan(Plan(
 
 plan(Plan(
     id="C01", title="Rendered markup parses back to the same element tree",
-    contracts=RENDER_FNS + HTML_FNS[:4],
+    contracts=RENDER_FNS + HTML_FNS[:4] + [CORE + "_tagchilds_to_tagnodes"],
     lean={"HV.C01": ["C01_parse_back_gen", "C01_parse_back", "C01_void_form", "C01_close_tag"]},
     gconds=TABLE_G + ["G:_VOID_TAG_NAMES:sixteen", "G:_NO_ESCAPE_TAG_NAMES:script-style"], oracle="c01", design_ref="§7 C01",
-    own=_own("html_escape", "_normalize_text"),
+    own=_own("html_escape", "_normalize_text", "_tagchilds_to_tagnodes"),
     relevance={"Tag.get_html_string:path": ("within", "ordTree(self)"), "TagList.get_html_string:loop0": ("within", "ordTree(c)"),
                "TagList.get_html_string:path": ("within", "ordTreeL(self)")},
     claim="the renderer is proved equal to its L1 spec from the real AST; in Lean the spec's output is proved to tokenize (reference tokenizer: data / tag-open / "
@@ -346,7 +346,7 @@ def _c18_extra(ctx):
 plan(Plan(
     id="C18", title="Output is deterministic across processes and independent of history",
     contracts=[UTIL + "hash_deterministic", CORE + "head_content", CORE + "_resolve_dependencies", CORE + "TagList.get_dependencies", CORE + "Tag.get_dependencies",
-               TDP + "_static_extract_serialized_html_deps", CORE + "_render_tag_or_taglist"] + TAGIFY_FNS + RENDER_FNS,
+               TDP + "_static_extract_serialized_html_deps", CORE + "_render_tag_or_taglist", CORE + "Tag.__copy__", CORE + "HTMLDocument._gen_html_tag_tree"] + TAGIFY_FNS + RENDER_FNS,
     lean={"HV.C18": ["C18_name_function_of_content", "C18_names_injective", "C18_render_is_a_function"],
           "HV.C10": ["C10_resolve_order", "C10_resolve_names_nodup"], "HV.C13": ["C13_dedup_order", "C13_dedup_nodup"]},
     extra=_c18_extra, oracle="c18", design_ref="§7 C18",
@@ -423,3 +423,6 @@ plan(Plan(
 # A2 (the kinds of stored children partition) for metadata nodes is a checked condition wherever a property relies on metadata being skipped
 for _p in ("C09", "C17", "C08", "C10", "C11"):
     PLANS[_p].gconds = list(PLANS[_p].gconds) + ["G:MetadataNode:not-self-rendering", "G:HTMLDependency:not-self-rendering"]
+
+PLANS["C08"].gconds = list(PLANS["C08"].gconds) + ["G:HTML:no__iadd__"]
+PLANS["C12"].gconds = list(PLANS["C12"].gconds) + ["G:MetadataNode:not-self-rendering", "G:HTMLDependency:not-self-rendering"]
